@@ -1,8 +1,8 @@
 SPECIFICATION Spec
 CONSTANTS
-  MaxNodes = 4
-  MaxTmpl = 3
-  Family = "all"
-  Emit = 0
+  MaxNodes = 3
+  MaxTmpl = 2
+  Family = "peel"
+  Emit = 1
 INVARIANTS InvStaticNN InvStaticN InvIdentity InvCounts InvFunctional InvFunctionalN InvStepLocal InvEmit
 CHECK_DEADLOCK FALSE
